@@ -528,3 +528,48 @@ def entry_size(r, F):
         ob = [t for bi, t in es.calls_to('hpack::encoder::encode_int_one_byte')]
         ok = len(ob) == 1 and strip(es.expr_of_op(ob[0]['a'][1]))[:2] == ('const', 7)
         r.check(ok, 'string-length|one-byte-test', es.file, 'encode_str decides the one-octet length form with encode_int_one_byte(len, 7) (value < 2^7 - 1), the same test encode_int applies')
+
+
+def decode_runs_to_end(r, F):
+    """every field of a header block goes through the HPACK decoder even when the block will be refused: the decode callback in
+    HeaderBlock::load breaks off only on the connection-fatal abuse limit (HeaderListWayTooLarge); over-size / malformed /
+    HeaderMap-full blocks keep decoding so that the dynamic table stays in sync with the peer's encoder"""
+    ld = r.fn('frame::headers::HeaderBlock::load')
+    if not ld:
+        return
+    cl = [F.fns[c] for c in sorted(F.cg.get(ld.name, ())) if c.startswith(ld.name + '::{closure') and c in F.fns]
+    import collections
+
+    def flag_of(e):
+        while e[0] in ('deref', 'ref'):
+            e = e[1]
+        if e[0] == 'upvar':
+            x = e[1]
+            while x[0] in ('deref', 'ref'):
+                x = x[1]
+            if x[0] == 'var':
+                return x[1]
+        return None
+    n = 0
+    for c in cl:
+        stores = collections.defaultdict(list)
+        for bi, si, pl, rv, ln in c.stmts():
+            if len(pl) > 1 and rv[0] == 'use' and core.op_const(rv[1]) is not None and core.op_const(rv[1])[0] == 1:
+                fl = flag_of(c.expr_of_place(pl))
+                if fl is not None:
+                    stores[fl].append(bi)
+        breaks = [bi for bi, si, pl, rv, ln in c.stmts() if rv[0] == 'aggr' and str(rv[2]).endswith('ControlFlow::Break')]
+        if not breaks:
+            continue
+        # the flag whose stores dominate the breaks
+        for b in breaks:
+            n += 1
+            doms = [fl for fl, bs in stores.items() if c.dominated_by_blocks(b, bs)]
+            ok = any(len(stores[fl]) >= 7 for fl in doms)
+            if not ok:
+                # propagation of a Break produced by the size check: `if check_size!().is_break() { return Break }`
+                pe = core.guard_edges(F, c, ['std::ops::ControlFlow::is_break'], lambda l: l is True)
+                ok = bool(pe) and c.dominated_by_edges(b, pe)
+            r.check(ok, 'decode-to-end|break', c.loc(b), 'the decode callback breaks off %s' % ('only right after raising the way-too-large flag' if ok else
+                    'on a path that did not raise the way-too-large flag: the rest of the fragment is not decoded, so table-mutating fields after that point never reach the dynamic table although the connection lives on'))
+    r.floor(n, 7, 'ControlFlow::Break sites in the decode callback')
